@@ -26,10 +26,16 @@ class Timeout(Exception):
 
 
 def _alarm(sec):
+    """per-path bound in CPU time of this process (independent of machine load); the timer keeps firing every 0.5 s
+    after the first expiry, because an exception raised while a z3 callback is on the stack is swallowed there"""
     def h(signum, frame):
         raise Timeout()
-    signal.signal(signal.SIGALRM, h)
-    signal.alarm(sec)
+    signal.signal(signal.SIGVTALRM, h)
+    signal.setitimer(signal.ITIMER_VIRTUAL, sec, 0.5)
+
+
+def _alarm_off():
+    signal.setitimer(signal.ITIMER_VIRTUAL, 0)
 
 
 def gen(c, n, A, cmode, amode):
@@ -173,13 +179,15 @@ def check_pairs(env, out, s, b, label_prefix=""):
 
 
 # ---------------------------------------------------------------- SingleAnnotatorWrapper
-def _saw(env, s, b, napp, perf, table=None, timeout=2):
+def _saw(env, s, b, napp, perf, table=None, timeout=2, enc="float"):
     P = __import__("skactiveml.pool.multiannotator", fromlist=["SingleAnnotatorWrapper"])
     clf = models.StubClassifier(classes=[0, 1], n_classes=2, gen=7) if env.sym else \
         models.real_table_classifier([(row, p) for _, row, p in (table or [])], n_classes=2)
     clf.classes_ = np.arange(2)
-    inner = pl.pool().UncertaintySampling(method="least_confident", random_state=s.seed)
-    w = P.SingleAnnotatorWrapper(strategy=inner, random_state=s.seed)
+    y, missing = _encode_y(env, s, enc)
+    clf.missing_label = missing
+    inner = pl.pool().UncertaintySampling(method="least_confident", random_state=s.seed, missing_label=missing)
+    w = P.SingleAnnotatorWrapper(strategy=inner, random_state=s.seed, missing_label=missing)
     A_perf = None
     if perf == "vector":
         if env.sym:
@@ -189,7 +197,7 @@ def _saw(env, s, b, napp, perf, table=None, timeout=2):
             A_perf = np.array(s.A_perf, dtype=float)
     _alarm(timeout)
     try:
-        out = w.query(s.X, s.y, candidates=s.cand, annotators=s.annot, batch_size=b, n_annotators_per_sample=napp,
+        out = w.query(s.X, y, candidates=s.cand, annotators=s.annot, batch_size=b, n_annotators_per_sample=napp,
                       A_perf=A_perf, return_utilities=True, clf=clf, fit_clf=False)
     except Timeout:
         env.prove(False, "query_terminates", info=dict(timeout_s=timeout))
@@ -200,7 +208,7 @@ def _saw(env, s, b, napp, perf, table=None, timeout=2):
         env.prove(False, "query_succeeds", info=dict(error=repr(e)[:200]))
         return
     finally:
-        signal.alarm(0)
+        _alarm_off()
     pairs = check_pairs(env, out, s, b)
     if pairs is None:
         return
@@ -218,38 +226,49 @@ def _saw(env, s, b, napp, perf, table=None, timeout=2):
     return pairs
 
 
-def sym_saw(c, n, A, cmode, amode, b, napp, perf):
+def sym_saw(c, n, A, cmode, amode, b, napp, perf, enc="float"):
     s = gen(c, n, A, cmode, amode)
     if not s.avail:
         raise core.PathAbort("no available pair")
-    _saw(pl.Env(c), s, b, napp, perf)
+    _saw(pl.Env(c), s, b, napp, perf, enc=enc)
     c.witness(True, "ran")
 
 
-def replay_saw(inputs, label, n, A, cmode, amode, b, napp, perf):
+def replay_saw(inputs, label, n, A, cmode, amode, b, napp, perf, enc="float"):
     s = real_gen(inputs, n, A, cmode, amode)
     s.A_perf = inputs.get("A_perf")
     for seed in [s.seed] + ([] if inputs.get("__scripted__") else list(range(12))):
         s.seed = seed
         env = pl.Env()
-        _saw(env, s, b, napp, perf, table=inputs.get("__clf__"), timeout=5)
+        _saw(env, s, b, napp, perf, table=inputs.get("__clf__"), timeout=5, enc=enc)
+        label = pl.reproduced(env, label) or label
         if label in env.violated:
-            return True, (f"SingleAnnotatorWrapper(UncertaintySampling, random_state={seed}).query(X={s.X.ravel().tolist()}, "
+            return True, (f"SingleAnnotatorWrapper(UncertaintySampling, random_state={seed}, labels={enc}).query(X={s.X.ravel().tolist()}, "
                           f"y labeled mask={s.lab.tolist()}, candidates={s.cand if cmode != 'rows' else 'rows'}, annotators="
                           f"{s.annot if amode != 'matrix' else np.asarray(s.annot).tolist()}, batch_size={b}, "
                           f"n_annotators_per_sample={napp}): {label} {env.violated[label]}")
     return False, "not reproduced"
 
 
+def _encode_y(env, s, enc):
+    """label matrix under another encoding: integer labels with the sentinel -1"""
+    if enc == "float":
+        return s.y, NAN
+    vals = np.where(s.lab == 1, (np.arange(s.n)[:, None] + np.arange(s.A)[None, :]) % 2, -1).astype(int)
+    return (arrays.SymNd(vals) if env.sym else vals), -1
+
+
 # ---------------------------------------------------------------- IntervalEstimationThreshold
-def _iet(env, s, b, table=None):
+def _iet(env, s, b, table=None, enc="float"):
     P = __import__("skactiveml.pool.multiannotator", fromlist=["IntervalEstimationThreshold"])
     clf = models.StubClassifier(classes=[0, 1], n_classes=2, gen=7) if env.sym else \
         models.real_table_classifier([(row, p) for _, row, p in (table or [])], n_classes=2)
     clf.classes_ = np.arange(2)
-    qs = P.IntervalEstimationThreshold(random_state=s.seed)
+    y, missing = _encode_y(env, s, enc)
+    clf.missing_label = missing
+    qs = P.IntervalEstimationThreshold(random_state=s.seed, missing_label=missing)
     try:
-        out = qs.query(s.X, s.y, clf, fit_clf=False, candidates=s.cand, annotators=s.annot, batch_size=b,
+        out = qs.query(s.X, y, clf, fit_clf=False, candidates=s.cand, annotators=s.annot, batch_size=b,
                        return_utilities=True)
     except (core.Unencodable, core.PathAbort):
         raise
@@ -259,22 +278,23 @@ def _iet(env, s, b, table=None):
     check_pairs(env, out, s, b)
 
 
-def sym_iet(c, n, A, cmode, amode, b):
+def sym_iet(c, n, A, cmode, amode, b, enc="float"):
     s = gen(c, n, A, cmode, amode)
     if not s.avail:
         raise core.PathAbort("no available pair")
-    _iet(pl.Env(c), s, b)
+    _iet(pl.Env(c), s, b, enc=enc)
     c.witness(True, "ran")
 
 
-def replay_iet(inputs, label, n, A, cmode, amode, b):
+def replay_iet(inputs, label, n, A, cmode, amode, b, enc="float"):
     s = real_gen(inputs, n, A, cmode, amode)
     for seed in [s.seed] + list(range(8)):
         s.seed = seed
         env = pl.Env()
-        _iet(env, s, b, table=inputs.get("__clf__"))
+        _iet(env, s, b, table=inputs.get("__clf__"), enc=enc)
+        label = pl.reproduced(env, label) or label
         if label in env.violated:
-            return True, (f"IntervalEstimationThreshold(random_state={seed}).query(X={s.X.ravel().tolist()}, y labeled mask="
+            return True, (f"IntervalEstimationThreshold(random_state={seed}, labels={enc}).query(X={s.X.ravel().tolist()}, y labeled mask="
                           f"{s.lab.tolist()}, candidates={s.cand if cmode != 'rows' else 'rows'}, annotators="
                           f"{s.annot if amode != 'matrix' else np.asarray(s.annot).tolist()}, batch_size={b}): {label} {env.violated[label]}")
     return False, "not reproduced"
@@ -290,6 +310,9 @@ def _cfg_saw(tier):
                     if perf == "vector" and (b, napp) != (2, 1):
                         continue
                     out.append(dict(n=2, A=2, cmode=cmode, amode=amode, b=b, napp=napp, perf=perf))
+    # integer label matrix with the sentinel -1
+    for cmode, amode in ((("none", "none"),) if tier == "quick" else (("none", "none"), ("idx", "idx"), ("rows", "matrix"))):
+        out.append(dict(n=2, A=2, cmode=cmode, amode=amode, b=2, napp=1, perf=None, enc="int"))
     if tier == "thorough":
         for cmode in ("none", "idx"):
             for amode in ("none", "matrix"):
@@ -303,6 +326,10 @@ def _cfg_iet(tier):
         for amode in ("none", "idx", "matrix"):
             for b in ((1, 2) if tier == "quick" else (1, 2, 3)):
                 out.append(dict(n=2, A=2, cmode=cmode, amode=amode, b=b))
+    # integer label matrix with the sentinel -1
+    for cmode, amode in ((("none", "none"), ("idx", "none")) if tier == "quick" else
+                         [(c, a) for c in ("none", "idx", "rows") for a in ("none", "idx", "matrix")]):
+        out.append(dict(n=2, A=2, cmode=cmode, amode=amode, b=2, enc="int"))
     return out
 
 
